@@ -187,6 +187,10 @@ def render_verilog(nl, lib, seed, simple=False, modname='top'):
         if n.startswith('h/'): return esc(n)
         if n.startswith('w1_'): return n if st.pick(2) else n + '[0]'
         if n in onebit and not simple and st.pick(2): return onebit[n]      # one-bit port bus [k:k] referenced without index
+        if not simple and n.endswith(']') and st.pick(5) == 0:              # a bit select may be written with leading zeros: d[07]
+            base_, idx_ = n[:-1].rsplit('[', 1)
+            if idx_.isdigit() and base_.replace('_', 'a').isalnum():
+                return f'{base_}[{"0" * (1 + st.pick(2))}{idx_}]'
         return n
 
     def ref(src):
